@@ -18,8 +18,9 @@ Proof. destruct e; exact I. Qed.
 (* the value of a seeded call, written out: contents, circuit table, and int_seed_output (arguments and seed only) *)
 Theorem xcall_int_seed_value o e z (w : xworld) :
   fst (xstep (XCall o e (SInt z)) w) =
-  XOut (conts w o) (circuits (conts w o)) (int_seed_output draw mkgen (to_call (conts w o) e) z).
-Proof. cbn [C14_ExpHist.xstep].
+  if ecall_attr_error (conts w o) e then XErr 18
+  else XOut (conts w o) (circuits (conts w o)) (int_seed_output draw mkgen (to_call (conts w o) e) z).
+Proof. cbn [C14_ExpHist.xstep]. destruct (ecall_attr_error (conts w o) e); [reflexivity|].
   pose proof (int_seed_function_of_seed draw mkgen gseed (to_call (conts w o) e) z (base w) (to_call_single _ _ _)) as [H _].
   destruct (run_call draw mkgen gseed (to_call (conts w o) e) (SInt z) (base w)) as [r b']. cbn [fst] in *. now rewrite H. Qed.
 
@@ -37,14 +38,14 @@ Proof. apply xcall_int_seed_function_of_contents. Qed.
 
 (* a numpy-integer seed behaves like the int seed here too *)
 Theorem xcall_npint_is_int o e z (w : xworld) : xstep (XCall o e (SNpInt z)) w = xstep (XCall o e (SInt z)) w.
-Proof. cbn [C14_ExpHist.xstep]. now rewrite npint_seed_is_int_seed. Qed.
+Proof. cbn [C14_ExpHist.xstep]. destruct (ecall_attr_error (conts w o) e); [reflexivity|]. now rewrite npint_seed_is_int_seed. Qed.
 
 (* a FRESH Experiment built from given lists and schedules has exactly those contents (whatever seed_data) ... *)
 Theorem construct_contents c sd (w : xworld) : scheds_err c (e_sched c) = None ->
   exists o', fst (xstep (XConstruct c sd) w) = XObj o' /\ conts (snd (xstep (XConstruct c sd) w)) o' = c /\
              (forall o, o <> o' -> conts (snd (xstep (XConstruct c sd) w)) o = conts w o).
 Proof. intros H. cbn [C14_ExpHist.xstep]. rewrite H.
-  destruct (construct_experiment gseed sd (base w)) as [o' b'] eqn:E. exists o'. cbn [fst snd conts].
+  destruct (construct_experiment gseed sd (base w)) as [o' b'] eqn:E. exists o'. cbn [fst snd conts new_obj].
   split; [reflexivity|]. unfold upd. split; [now rewrite Nat.eqb_refl|]. intros o Ho. destruct (Nat.eqb_spec o o'); [contradiction|reflexivity]. Qed.
 (* ... so the seeded output of an object after any history equals that of a fresh Experiment built from its current lists *)
 Theorem xcall_equals_fresh_experiment o e z sd (w w' : xworld) :
@@ -79,6 +80,46 @@ Proof. intros Hk Hi. cbn [C14_ExpHist.xstep]. destruct (Nat.ltb_spec i (length (
   cbn [fst snd set_cont base conts]. unfold upd. rewrite Nat.eqb_refl. split; [reflexivity|]. split; [reflexivity|].
   rewrite elist_with_elist by exact Hk. split; [now apply nth_error_set_nth|]. split; [intros j Hj; apply nth_error_set_nth_other; lia|].
   split; [destruct k as [|[|[|k]]]; reflexivity|]. intros o' Ho. destruct (Nat.eqb_spec o' o); [contradiction|reflexivity]. Qed.
+
+(* ---- inner schedule lists are SHARED between an Experiment and its copy() ---- *)
+(* experiment.schedules[s][j] = it, on an object whose schedule s exists and has an entry j: every object that shares that inner
+   list (same tag) sees the new item, every other inner list of every object is unchanged, no list of elements and no random
+   state is touched *)
+Lemma retag_sched_nth t j it : forall tg sch s, length tg = length sch ->
+  nth_error (retag_sched t j it tg sch) s =
+  match nth_error tg s, nth_error sch s with
+  | Some t', Some items => Some (if Nat.eqb t' t then set_nth j it items else items)
+  | _, _ => None
+  end.
+Proof. unfold retag_sched. induction tg as [|a tg IH]; intros sch s H; destruct sch as [|x sch]; try discriminate.
+  - destruct s; reflexivity.
+  - destruct s as [|s]; cbn [combine map nth_error fst snd]; [reflexivity|]. apply IH. cbn in H. lia. Qed.
+
+Theorem set_sched_item_shared o s j it t items (w : xworld) :
+  nth_error (stags w o) s = Some t -> nth_error (e_sched (conts w o)) s = Some items -> (j < length items)%nat ->
+  let w' := snd (xstep (XSetSchedItem o s j it) w) in
+  fst (xstep (XSetSchedItem o s j it) w) = XUnit /\ base w' = base w /\
+  (forall o' s', length (stags w o') = length (e_sched (conts w o')) ->
+     nth_error (e_sched (conts w' o')) s' =
+     match nth_error (stags w o') s', nth_error (e_sched (conts w o')) s' with
+     | Some t', Some items' => Some (if Nat.eqb t' t then set_nth j it items' else items')
+     | _, _ => None
+     end) /\
+  (forall o' k, elist k (conts w' o') = elist k (conts w o')).
+Proof. intros Ht Hi Hj. cbn [C14_ExpHist.xstep]. rewrite Ht, Hi. destruct (Nat.ltb_spec j (length items)) as [_|B]; [|lia].
+  cbn [fst snd base conts]. split; [reflexivity|]. split; [reflexivity|]. split.
+  - intros o' s' Hl. cbn [e_sched with_sched]. now apply retag_sched_nth.
+  - intros o' k. destruct k as [|[|[|k]]]; reflexivity. Qed.
+
+(* copy() gives the copy the SAME inner-list identities; assigning `schedules` gives fresh ones *)
+Theorem copy_shares_inner_schedule_lists o (w : xworld) : scheds_err (conts w o) (e_sched (conts w o)) = None ->
+  stags (snd (xstep (XCopy o) w)) (nobj (base w)) = stags w o /\
+  (forall o', o' <> nobj (base w) -> stags (snd (xstep (XCopy o) w)) o' = stags w o').
+Proof. intros H. cbn [C14_ExpHist.xstep]. rewrite H. cbn. unfold upd. rewrite Nat.eqb_refl. split; [reflexivity|].
+  intros o' Ho. destruct (Nat.eqb_spec o' (nobj (base w))); [contradiction|reflexivity]. Qed.
+Theorem set_sched_fresh_tags o sch (w : xworld) : scheds_err (conts w o) sch = None ->
+  stags (snd (xstep (XSetSched o sch) w)) o = seq (ntag w) (length sch) /\ ntag (snd (xstep (XSetSched o sch) w)) = (ntag w + length sch)%nat.
+Proof. intros H. cbn [C14_ExpHist.xstep]. rewrite H. cbn. unfold upd, fresh_tags. now rewrite Nat.eqb_refl. Qed.
 
 (* the circuit of a schedule is read from the CURRENT lists: position j of the circuit of schedule s is the element the
    j-th item (k, i) refers to now *)
